@@ -22,7 +22,8 @@ RULE = ("cases: random recipes (all connectives, depth<=5, fan-out<=8, DAG shari
         "<=cap points are enumerated completely, larger ones by corners + boundary-biased samples. non-trivial: the "
         "model has >=1 compound child and both truth values occurred among the judged assignments; distinct by "
         "canonical shape digest")
-BUDGET = {"quick": (8, 200, 60), "thorough": (16, 3000, 900)}
+BUDGET = {"quick": (12, 450, 90), "thorough": (16, 2500, 1200)}
+PYTEST = True     # thorough tier also runs the repository's own tests under these monitors
 MANDATORY = ["judged:active-iff-true", "judged:inactive-feasible", "judged:columns", "contract:AtLeast.to_ge_polyhedron"]
 
 _n = 0
